@@ -127,6 +127,40 @@ theorem list_list (xs ys : List Val) : equalV (.list xs) (.list ys) = deepEq (.l
 theorem map_map (xs ys : List (Val × Val)) : equalV (.map xs) (.map ys) = deepEq (.map xs) (.map ys) := by
   simp [equalV, equalCore, equalNorm, normStrNum, isNumV, Val.kind]
 
+theorem allOpt_false {α : Type} (f : α → Option Bool) (x : α) : ∀ (xs : List α), x ∈ xs → f x = some false →
+    allOpt f xs ≠ some true := by
+  intro xs
+  induction xs with
+  | nil => intro h; cases h
+  | cons y ys ih =>
+    intro hm hf
+    simp only [allOpt]
+    rcases List.mem_cons.mp hm with rfl | hm'
+    · rw [hf]
+      cases allOpt f ys <;> simp
+    · have := ih hm' hf
+      cases hy : f y <;> cases hys : allOpt f ys <;> simp_all
+
+/-- A key that only ONE of two maps has makes them unequal, whatever value it holds - nil included: an absent
+entry is not an entry holding nil. (`{"a": nil} == {"b": nil}` is false.) -/
+theorem map_with_a_key_the_other_lacks_is_not_equal (n : Nat) (xs ys : List (Val × Val)) (k v : Val)
+    (hmem : (k, v) ∈ xs) (hmiss : mapLookup k ys = none) :
+    deepEqF (n + 1) (.map xs) (.map ys) ≠ some true ∧ deepEqF (n + 1) (.map ys) (.map xs) ≠ some true := by
+  have hf : ∀ cmp, entryCmp cmp ys (k, v) = some false := by
+    intro cmp; simp [entryCmp, hmiss]
+  constructor
+  · simp only [deepEqF]
+    have := allOpt_false (entryCmp (deepEqF n) ys) (k, v) xs hmem (hf _)
+    cases h1 : allOpt (entryCmp (deepEqF n) ys) xs <;> cases h2 : allOpt (entryCmp (fun a b => deepEqF n b a) xs) ys <;>
+      simp_all [optAnd]
+  · simp only [deepEqF]
+    have := allOpt_false (entryCmp (fun a b => deepEqF n b a) ys) (k, v) xs hmem (hf _)
+    cases h1 : allOpt (entryCmp (deepEqF n) xs) ys <;> cases h2 : allOpt (entryCmp (fun a b => deepEqF n b a) ys) xs <;>
+      simp_all [optAnd]
+
+example (n : Nat) : deepEqF (n + 1) (.map [(.str [97], .nil)]) (.map [(.str [98], .nil)]) ≠ some true :=
+  (map_with_a_key_the_other_lacks_is_not_equal n _ _ (.str [97]) .nil (by simp) (by simp [mapLookup, keyEq])).1
+
 /-! ### Non-vacuity -/
 example : strToInt [49, 48, 48, 48, 48, 48, 48] = some 1000000#64 := by decide   -- "1000000"
 example : strToInt [48, 120, 49, 48] = none := by decide   -- "0x10"
